@@ -3,5 +3,5 @@ CONSTANTS
   Vals = {1, 2}
   KeyTypes = {"u8", "str"}
 INVARIANTS TypeOK Observed
-PROPERTIES Obs Order Report
+PROPERTIES Obs Order Report IterMut
 VIEW View
